@@ -394,6 +394,8 @@ impl SeekableAsset for FaultAsset {
 /// `RomSet` over in-memory pages
 pub struct MemRomSet {
     pub pages: std::collections::VecDeque<Vec<u8>>,
+    /// the page assets return at most this many bytes per read call (0 = no limit)
+    pub chunk: usize,
 }
 
 impl RomSet for MemRomSet {
@@ -402,7 +404,8 @@ impl RomSet for MemRomSet {
         RomFormat::Binary16KPages
     }
     fn next_asset(&mut self) -> Option<MemAsset> {
-        self.pages.pop_front().map(MemAsset::new)
+        let chunk = self.chunk;
+        self.pages.pop_front().map(|p| MemAsset::chunked(p, chunk))
     }
 }
 
